@@ -43,6 +43,7 @@ def main():
         if rc != 0:
             print('SEED %s: patch does not apply to /repo working tree: %s' % (sid, out[-400:])); return 3
         touched_pyx = '.pyx' in open(patch).read()
+        sys.path.insert(0, '/verif'); from pbt import build as _b; _b.adopt(pristine); _b.adopt(changed)
         envp = dict(os.environ, VERIF_REPO_ROOT=pristine)
         envc = dict(os.environ, VERIF_REPO_ROOT=changed)
         sh([PY, '-m', 'pbt.build'], cwd='/verif', env=envp)
